@@ -227,27 +227,115 @@ fn read_symbol_prefix_lemma() {
     kani::cover!(rp.is_ok() && cut < len);
 }
 
-// ---- TEMP experiments ----
-fn check_small(lengths: &[u8; 6]) {
-    let r = Histogram::with_code_lengths(lengths.to_vec());
-    match &r {
-        Ok(h) => check_decodes(h, lengths),
-        Err(_) => assert!(false, "[C04,C01] every complete code is accepted"),
+// ------------------------------------------------------------------------------------------------
+// read_symbol against the table it is given: total, index-safe and exact for EVERY well-formed table
+// ------------------------------------------------------------------------------------------------
+// table_wf(h): toplevel_bits <= 10, toplevel_mask == 2^toplevel_bits - 1, toplevel_entries.len() == 2^toplevel_bits
+// slot_wf(h, p) for the 15 peeked bits p: the entry selected by p is a leaf with bits <= 15, or a `nested` entry whose
+//               chunk [offset, offset + mask] lies inside second_level_entries and whose selected leaf has bits <= 15.
+// (Established by with_code_lengths / with_single_symbol; assumed here only at the one p that is looked up.)
+impl kani::Arbitrary for Entry {
+    fn any() -> Self {
+        Entry { nested: kani::any(), bits_or_mask: kani::any(), symbol_or_offset: kani::any() }
     }
 }
-#[kani::proof]
-#[kani::unwind(34)]
-fn exp_one() {
-    check_small(&[1, 2, 3, 4, 5, 5]);
+
+fn table_wf(h: &Histogram) -> bool {
+    h.toplevel_bits <= MAX_TOPLEVEL_BITS
+        && h.toplevel_mask == (1u32 << h.toplevel_bits) - 1
+        && h.toplevel_entries.len() == 1usize << h.toplevel_bits
 }
+
+/// Two-level lookup of the standard decoder: Some((symbol, length)) or None if the table is malformed at p.
+fn spec_table_lookup(h: &Histogram, p: u32) -> Option<(u32, usize)> {
+    let e = h.toplevel_entries[(p & h.toplevel_mask) as usize];
+    let leaf = if e.nested {
+        let at = e.symbol_or_offset as usize + ((p >> h.toplevel_bits) & e.bits_or_mask as u32) as usize;
+        if at >= h.second_level_entries.len() { return None; }
+        h.second_level_entries[at]
+    } else {
+        e
+    };
+    if leaf.bits_or_mask as usize > MAX_PREFIX_BITS { return None; }
+    Some((leaf.symbol_or_offset as u32, leaf.bits_or_mask as usize))
+}
+
+const SECOND_LEVEL_BOUND: usize = 40;
+
+fn read_symbol_table<const TOP: usize>(cut_stream: bool) {
+    let mut toplevel_entries = kani::vec::exact_vec::<Entry, TOP>();
+    let toplevel_bits: usize = kani::any();
+    kani::assume(toplevel_bits <= MAX_TOPLEVEL_BITS && (1usize << toplevel_bits) <= TOP);
+    toplevel_entries.truncate(1usize << toplevel_bits);
+    // BOUND: second-level table of <= SECOND_LEVEL_BOUND entries (real ones have up to 2^15; one entry is read per call)
+    let mut second_level_entries = kani::vec::exact_vec::<Entry, SECOND_LEVEL_BOUND>();
+    let n2: usize = kani::any();
+    kani::assume(n2 <= SECOND_LEVEL_BOUND);
+    second_level_entries.truncate(n2);
+    let h = Histogram { toplevel_bits, toplevel_mask: kani::any(), toplevel_entries, second_level_entries };
+    kani::assume(table_wf(&h));
+    let data: [u8; 16] = kani::any();
+    let len: usize = kani::any();
+    let off: usize = kani::any();
+    // full-stream variant: constant length and offset 0, so that the reader's byte-wise slow path is not even
+    // explored under the large unwinding bound (position independence of the reader: bs.* obligations)
+    kani::assume(if cut_stream { len <= 3 && off <= 7 } else { len == 16 && off == 0 });
+    let view = View::of(&data, len);
+    if off > view.total { return; }
+    let avail = view.total - off;
+    // the 15 peeked bits: the stream bits, zero-extended past the end of the data
+    let p = view.u(off, 15);
+    let Some((symbol, bits)) = spec_table_lookup(&h, p) else { return; }; // slot_wf(h, p)
+    let mut bs = if cut_stream { Bitstream::new(&data[..len]) } else { Bitstream::new(&data) };
+    if cut_stream && bs.skip_bits(off).is_err() { return; }
+    let r = h.read_symbol(&mut bs);
+    // [C01] reaching here: both table indexings were in range
+    match &r {
+        Ok(s) => {
+            assert!(*s == symbol, "[C04] read_symbol returns the symbol of the entry selected by the next 15 bits");
+            assert!(bits <= avail && bs.num_read_bits() == off + bits, "[C04,C11] and consumes that entry's length, which the stream holds");
+        }
+        Err(e) => {
+            assert!(bits > avail, "[C11] read_symbol fails only if the selected codeword is longer than the remaining data");
+            assert!(e.unexpected_eof() && bs.num_read_bits() == off, "[C11] as unexpected-eof, consuming nothing");
+        }
+    }
+    kani::cover!(r.is_ok() && h.toplevel_entries[(p & h.toplevel_mask) as usize].nested && (1usize << toplevel_bits) == TOP);
+    kani::cover!(r.is_ok() && toplevel_bits == 0);
+    kani::cover!(r.is_err() == cut_stream);
+}
+
+/// every table geometry (toplevel_bits 0..=10), full stream (the refill never needs its byte-wise slow path, so the
+/// large unwinding bound needed to build the 1024-entry symbolic table costs nothing in the reader)
 #[kani::proof]
-#[kani::unwind(34)]
-fn exp_loop() {
-    // all arrangements with l0 = 5, l1 = 5
-    let mut n = 0;
-    for l2 in 0..=5u8 { for l3 in 0..=5u8 { for l4 in 0..=5u8 { for l5 in 0..=5u8 {
-        let v = [5, 5, l2, l3, l4, l5];
-        if kraft(&v) == 1 << 15 { check_small(&v); n += 1; }
-    }}}}
-    assert!(n == 24);
+#[kani::unwind(1026)]
+fn read_symbol_table_contract() { read_symbol_table::<1024>(false); }
+
+/// [C11] cut streams (<= 3 bytes), tables with toplevel_bits <= 3 (the lookup code does not depend on the geometry)
+#[kani::proof]
+#[kani::unwind(42)]
+fn read_symbol_table_cut_stream() { read_symbol_table::<8>(true); }
+
+// ---- TEMP experiments ----
+#[kani::proof]
+#[kani::unwind(9)]
+fn exp_small43() {
+    let lengths: [u8; 4] = kani::any();
+    let mut i = 0;
+    while i < 4 {
+        kani::assume(lengths[i] <= 3);
+        i += 1;
+    }
+    let k = kraft(&lengths);
+    kani::assume(k <= 1 << 15);
+    let r = Histogram::with_code_lengths(lengths.to_vec());
+    match &r {
+        Ok(h) => {
+            assert!(k == 1 << 15, "[C04] only complete codes are accepted");
+            check_decodes(h, &lengths);
+        }
+        Err(e) => {
+            assert!(k != 1 << 15, "[C04,C01] every complete code is accepted");
+        }
+    }
 }
